@@ -135,6 +135,7 @@ type Machine struct {
 	decided       map[*Term]bool
 	concVals      map[*Term]uint64
 	exited        bool
+	curFrame      *frame
 	onces         map[string]bool
 
 	methCache map[methKey]*ssa.Function
@@ -623,6 +624,7 @@ func (m *Machine) resetPathState() {
 	m.decided = map[*Term]bool{}
 	m.concVals = map[*Term]uint64{}
 	m.exited = false
+	m.curFrame = nil
 	m.onces = nil
 	m.reverseMaps = m.ex.opts.ReverseMaps
 }
@@ -678,6 +680,9 @@ func (m *Machine) runPath(item workItem) (out Outcome) {
 			kind, msg, site = r.kind, r.msg, r.site
 		case unsupportedErr:
 			kind, msg = "unsupported", r.msg
+			if m.curFrame != nil {
+				site = m.curFrame.stack()
+			}
 		default:
 			kind, msg = "unsupported", fmt.Sprintf("interpreter error: %v", r)
 			if m.ex.opts.Verbose {
